@@ -40,6 +40,12 @@ XAllowed(s, e) ==
   CASE e.ev = "exchange" -> /\ e.setup
                             /\ Declared(s, e)                                        \* the exchange is the declared step
                             /\ ExchangeOK(Call(e), Obs(e))
+    \* a call of a long concurrent batch, recorded by the projection of its exchange to what identifies it: every value it
+    \* supplied ends in its tag (sent); handler invocations are filed under the call whose tag their values carry; the handler
+    \* echoes the tag of the call it was invoked for in a response header.  C04: that operation's handler is invoked, once,
+    \* with this call's values, and its answer reaches this caller.
+    [] e.ev = "call" -> /\ s.bn > 0 /\ Declared(s, e)
+                        /\ ~e.err /\ e.handled_op = e.op /\ e.invoked = 1 /\ e.echoed = << e.sent >>
     \* the application created ANOTHER Runtime and customised its codec tables: no concern of this session's Runtime,
     \* whose configuration (the state) is unchanged - the exchanges that follow are judged as before
     [] e.ev = "customise" -> TRUE
@@ -52,6 +58,10 @@ XWhy(s, e) ==
                             ELSE IF s.bn > 0 THEN WhyExchange(Call(e), Obs(e)) \o "/concurrent"
                             ELSE IF e.step > 1 THEN WhyExchange(Call(e), Obs(e)) \o "/after-history"
                             ELSE WhyExchange(Call(e), Obs(e))
+    [] e.ev = "call" -> IF ~Declared(s, e) THEN "not-the-declared-step" ELSE IF e.err THEN "client-error/concurrent"
+                        ELSE IF e.handled_op # e.op THEN "other-operation-or-none-invoked/concurrent"
+                        ELSE IF e.invoked # 1 THEN "handler-not-invoked-exactly-once/concurrent"
+                        ELSE "answer-of-another-call/concurrent"
     [] e.ev = "race" -> "data-race-reported"
     [] OTHER -> "unknown-event"
 
